@@ -62,6 +62,7 @@ def run(ctx):
     c13.negative_tests(ctx, [("net", "NoMix")])
     bs = c13.behaviours(ctx, 100 if ctx.quick else 2000, 16)
     c13.replay_all(ctx, bs, "network", threaded_groups=0)
+    c13.cold_start(ctx, "network")
     events = core.build_events(ctx, gen_inputs(ctx))
     nleaves = sum(len(e.get("leaves", [])) for e in events)
     ctx.notes["leaves_classified"] = nleaves
@@ -85,6 +86,6 @@ def run(ctx):
 
 def replay(ctx, path):
     rp = core.load_replay(path)
-    if "behaviour" in rp or "behaviours" in rp:
+    if "behaviour" in rp or "behaviours" in rp or rp.get("mode") in ("cold-start", "stress"):
         return c13.replay(ctx, path)
     return core.std_replay(ctx, path, MODULE)
